@@ -671,3 +671,115 @@ End Chain.
 Print Assumptions a64_store_full.
 Print Assumptions a64_store_ok.
 Print Assumptions a64_store_one_block_ok.
+
+(* ---------- the image built from an instruction list (port of Proof/X86Mem.v mk_image_code_labels) ---------- *)
+Lemma build_code_below : forall cs i a im j, (j < i)%positive -> PM.find j (code (build cs i a im)) = PM.find j (code im).
+Proof.
+  induction cs as [|c r IH]; intros i a im j Hj; cbn [build code]; auto.
+  rewrite IH by lia. cbn [code]. apply PM.gso. lia.
+Qed.
+Lemma build_code_at : forall cs i a im, code_at (build cs i a im) i cs.
+Proof.
+  induction cs as [|c r IH]; intros i a im n c0 Hn; [destruct n; discriminate|].
+  destruct n as [|n]; cbn [nth_error padd] in *.
+  - inversion Hn; subst. cbn [build]. rewrite build_code_below by lia. cbn [code]. apply PM.gss.
+  - cbn [build]. eapply IH; eauto.
+Qed.
+Definition label_names (cs : list acode) : list string :=
+  flat_map (fun c => match c with LAB l => [l] | _ => [] end) cs.
+Lemma build_labels_old : forall cs i a im l,
+  ~ In l (label_names cs) -> find_label (labels (build cs i a im)) l = find_label (labels im) l.
+Proof.
+  induction cs as [|c r IH]; intros i a im l Hl; cbn [build labels]; auto.
+  rewrite IH.
+  - cbn [labels]. destruct c; auto. cbn [find_label]. destruct (String.eqb_spec l l0); auto.
+    subst. exfalso. apply Hl. cbn. now left.
+  - intro H. apply Hl. cbn [label_names flat_map]. apply in_app_iff. now right.
+Qed.
+Lemma build_labels_at : forall cs i a im, NoDup (label_names cs) -> labels_at (build cs i a im) i cs.
+Proof.
+  induction cs as [|c r IH]; intros i a im Hnd n l Hn; [destruct n; discriminate|].
+  assert (Hnd' : NoDup (label_names r)).
+  { cbn [label_names flat_map] in Hnd. now apply Heap.NoDup_app_r in Hnd. }
+  destruct n as [|n]; cbn [nth_error padd] in *.
+  - inversion Hn; subst. cbn [build]. rewrite build_labels_old.
+    + cbn [labels find_label]. now rewrite String.eqb_refl.
+    + cbn [label_names flat_map app] in Hnd. now inversion Hnd.
+  - cbn [build]. eapply IH; eauto.
+Qed.
+Theorem a64_mk_image_code_labels cs :
+  NoDup (label_names cs) -> code_at (mk_image cs) 1%positive cs /\ labels_at (mk_image cs) 1%positive cs.
+Proof. intros H. split; [apply build_code_at|now apply build_labels_at]. Qed.
+
+(* ---------- the hypotheses are satisfiable: five variables (two blocks) behind thirteen others, so that the variables
+   stored, the link and BOTH new block pointers live in SPILL SLOTS (positions 26..35 = slots 1..10; the object
+   pointer goes to position 26 = slot 1) ---------- *)
+Definition ex5_val (k : N) : Z := 100 + Z.of_N k.
+Definition ex_sp : Z := STACK_TOP - 4096.
+Definition ex5_state : astate :=
+  fold_left (fun s k => sset s ex_sp (k - 25)%N (Some (ex5_val k)))
+            [26; 27; 28; 29; 30; 31; 32; 33; 34; 35]%N
+            (rset (rset (rset (init_state []) SP (Some ex_sp)) HEAP (Some HEAP_BASE)) FREE (Some (HEAP_BASE + 64))).
+Definition ex5_rem : ctx := repeat (mkb ("r"%string, 0%N) Ext I64) 13.
+Definition ex5_store : ctx :=
+  [mkb ("a"%string, 0%N) Ext I64; mkb ("b"%string, 1%N) Prd (Decl ("T"%string, 0%N)); mkb ("c"%string, 2%N) Ext I64;
+   mkb ("d"%string, 3%N) Cns (Decl ("T"%string, 0%N)); mkb ("e"%string, 4%N) Ext I64].
+Definition ex5_code : list acode := match a_store ex5_store ex5_rem 0 with Ok (cs, _) => cs | Err _ => [] end.
+
+Example a64_store_example :
+  let a := abs_heap (HEAP_BASE + 64) ex5_state in
+  let res := Heap.alloc_object (fsts ex5_val 13 ex5_store) a in
+  exists lc', a_store ex5_store ex5_rem 0 = Ok (ex5_code, lc') /\
+  fsts ex5_val 13 ex5_store = [0; 128; 0; 132; 0] /\ tpos 26 = AS 1 /\
+  fst res = HEAP_BASE + 64 /\ Heap.frontier (snd res) = HEAP_BASE + 192 /\
+  exists s', exec_to (mk_image ex5_code) 1 ex5_state (padd 1 (List.length ex5_code)) s' /\
+     st_eqB (abs_heap (HEAP_BASE + 192) s') (snd res) /\ sget s' ex_sp 1 = Some (HEAP_BASE + 64) /\
+     wblocks 1 (hword s') (HEAP_BASE + 64) = [HEAP_BASE + 64; HEAP_BASE] /\
+     hword s' (HEAP_BASE + 64 + 16 + 8) = 127 /\ hword s' (HEAP_BASE + 64 + 32) = 128 /\ hword s' (HEAP_BASE + 48 + 8) = 135 /\
+     stack_frame ex5_state s' ex_sp.
+Proof.
+  intros a res.
+  assert (Hx : exists lc', a_store ex5_store ex5_rem 0 = Ok (ex5_code, lc')) by (eexists; vm_compute; reflexivity).
+  destruct Hx as [lc' Hx]. exists lc'. split; [exact Hx|]. split; [reflexivity|]. split; [reflexivity|].
+  assert (Ef : fst res = HEAP_BASE + 64) by (vm_compute; reflexivity).
+  assert (EF : Heap.frontier (snd res) = HEAP_BASE + 192) by (vm_compute; reflexivity).
+  split; [exact Ef|]. split; [exact EF|].
+  destruct (a64_mk_image_code_labels ex5_code) as [HC HL]; [apply X86MemStore.nodupb_sound; vm_compute; reflexivity|].
+  assert (Bk : forall k, 0 <= k <= 3 -> is_blk (HEAP_BASE + 64 * k)).
+  { intros k Hk. exists k. split; [lia|]. split; [reflexivity|]. unfb. lia. }
+  assert (Eacq : alloc_object_acq (fsts ex5_val 13 ex5_store) a = [HEAP_BASE; HEAP_BASE + 64]) by (vm_compute; reflexivity).
+  destruct (a64_store_full (mk_image ex5_code) 1 ex5_store ex5_rem 0 ex5_code lc' ex5_state ex_sp (HEAP_BASE + 64) ex5_val Hx ltac:(discriminate) HC HL)
+    as (s' & ST & EQ & Rr & _ & _ & _ & WB & _ & (WD & _) & _ & SF).
+  - split; [vm_compute; reflexivity|]. repeat split; vm_compute; easy.
+  - intros i b Hi. destruct i as [|[|[|[|[|i]]]]]; cbn in Hi; try (destruct i; discriminate); inversion Hi; subst b;
+      (split; [vm_compute; reflexivity|intros _; vm_compute; reflexivity]).
+  - change (List.length ex5_rem) with 13%nat. change (fsts ex5_val 13 ex5_store) with [0; 128; 0; 132; 0].
+    unfold X86MemStoreChain.alloc_object_pre. split.
+    + split; [exact (Bk 0 ltac:(lia))|]. split; [vm_compute; discriminate|]. split.
+      * intros _. exact (Bk 1 ltac:(lia)).
+      * intros _ H. exfalso. apply H. vm_compute. reflexivity.
+    + cbn [List.length X86MemStoreChain.chain_pre]. unfold Heap.butlastn at 1. cbn [List.length Nat.sub firstn]. split.
+      * split; [|split; [|split]].
+        -- replace (Heap.heap _) with (HEAP_BASE + 64 * 1) by (vm_compute; reflexivity). apply Bk. lia.
+        -- vm_compute. discriminate.
+        -- intros _. replace (Heap.free _) with (HEAP_BASE + 64 * 2) by (vm_compute; reflexivity). apply Bk. lia.
+        -- intros _ H. exfalso. apply H. vm_compute. reflexivity.
+      * unfold Heap.butlastn. cbn [List.length Nat.sub firstn X86MemStoreChain.chain_pre]. exact I.
+  - change (List.length ex5_rem) with 13%nat. change (fsts ex5_val 13 ex5_store) with [0; 128; 0; 132; 0].
+    unfold alloc_object_hdr64. split; [unfold hdr64; vm_compute; split; discriminate|].
+    cbn [List.length chain_hdr64]. unfold Heap.butlastn at 1. cbn [List.length Nat.sub firstn]. split.
+    + unfold hdr64; vm_compute; split; discriminate.
+    + unfold Heap.butlastn. cbn [List.length Nat.sub firstn chain_hdr64]. exact I.
+  - change (List.length ex5_rem) with 13%nat. fold a. rewrite Eacq.
+    constructor; [intros [H|[]]; unfold HEAP_BASE in H; lia|]. constructor; [intros []|constructor].
+  - change (List.length ex5_rem) with 13%nat in *. change (Heap.nlinks (List.length ex5_store)) with 1%nat in *.
+    fold a in EQ, Rr, WB, WD. fold res in EQ, Rr, WB, WD. rewrite EF in EQ. rewrite Ef in Rr, WB, WD. rewrite Eacq in WB.
+    exists s'. split; [exact ST|]. split; [exact EQ|]. split; [exact Rr|]. split; [exact WB|].
+    assert (LK : hword s' (HEAP_BASE + 64 + 48) = HEAP_BASE).
+    { pose proof WB as WB'. cbn [X86HeapDefs.wblocks rev app] in WB'. injection WB' as LK0. exact LK0. }
+    cbn [X86HeapDefs.waddrs app List.length] in WD. rewrite LK in WD.
+    pose proof (WD 0%nat _ eq_refl) as W0. pose proof (WD 1%nat _ eq_refl) as W1. pose proof (WD 4%nat _ eq_refl) as W4.
+    cbn [List.length ex5_store Nat.sub Nat.add nth] in W0, W1, W4.
+    split; [exact (proj2 W0)|]. split; [exact (proj1 W1)|]. split; [exact (proj2 W4)|exact SF].
+Qed.
+Print Assumptions a64_store_example.
